@@ -418,10 +418,12 @@ func firstDiff(a, b []dline) int {
 
 type mutator struct {
 	w         *walker
-	tag       string // makes the fresh values written by this mutator distinct from another mutator's
-	n         int    // mutations applied
-	skipped   int    // locations that could not be mutated in place (non-addressable)
-	singleton int    // singleton targets skipped
+	tag       string           // makes the fresh values written by this mutator distinct from another mutator's
+	n         int              // mutations applied
+	skipped   int              // locations that could not be mutated in place (non-addressable)
+	singleton int              // singleton targets skipped
+	seen      map[uintptr]bool // pointer targets already mutated: an instance that the value references twice
+	// is changed once (the scalar mutations are involutions; twice would restore it)
 }
 
 // mutate changes every byte / scalar / slice element / map entry / pointer target reachable from v,
@@ -440,6 +442,13 @@ func (m *mutator) mutate(v reflect.Value, depth int) {
 			m.singleton++
 			return
 		}
+		if m.seen == nil {
+			m.seen = map[uintptr]bool{}
+		}
+		if m.seen[v.Pointer()] {
+			return
+		}
+		m.seen[v.Pointer()] = true
 		m.mutate(v.Elem(), depth+1)
 		return
 	case reflect.Interface:
